@@ -141,7 +141,7 @@ func checkPoint(c *mon.Case, pt point, ts []float64) {
 			return
 		}
 		P[k] = p
-		c.Count("t:" + tClass(t))
+		c.Count("branch-length:" + tClass(t))
 	}
 	c.Add("matrices-read", len(ts))
 
@@ -998,8 +998,8 @@ func main() {
 	mon.Floor("reuse:back-to-smaller", 2000)
 	mon.Floor("reuse:same-t", 2000)
 	mon.Floor("check:p0", 2000)
-	mon.Floor("t:saturating", 2000)
-	mon.Floor("t:tiny", 2000)
+	mon.Floor("branch-length:saturating", 2000)
+	mon.Floor("branch-length:tiny", 2000)
 	mon.Floor("kappa-class:tn93:coincident-eigenvalues", 50)
 	mon.Floor("kappa-class:tn93:k1=k2", 50)
 	mon.Floor("kappa-class:f84:0", 20)
